@@ -2,7 +2,7 @@
 # usage: verify_seed.sh <ID> <A|B>  -- confirms a sub-agent's seeded change in its scratch worktree and files it under /verif/seeded/
 set -u
 id=$1; v=$2
-wt=/tmp/mut/$id; out=$wt/_out/$v
+wt=${MUTDIR:-/tmp/mut}/$id; out=$wt/_out/$v; name=${SEEDNAME:-$id-$v}
 export GOFLAGS=-mod=mod GOPROXY=off GOSUMDB=off GOTOOLCHAIN=local
 cd $wt || exit 2
 git checkout -q -- . ; git clean -fdq -e _out
@@ -23,18 +23,18 @@ go build ./... > /tmp/vs3.log 2>&1 && go test -vet=off -count=1 ./... >> /tmp/vs
 git checkout -q -- . ; git clean -fdq -e _out
 echo "$id-$v demo_clean_rc=$r1 demo_mutant_rc=$r2 suite_mutant_rc=$r3 target=$target tests=$tests"
 if [ $r1 -eq 0 ] && [ $r2 -ne 0 ] && [ $r3 -eq 0 ]; then
-  d=/verif/seeded/$id-$v; mkdir -p $d
+  d=/verif/seeded/$name; mkdir -p $d
   cp $out/patch.diff $d/patch.diff; cp $out/demo_test.go $d/demo_test.go; cp $out/NOTES.md $d/NOTES.md 2>/dev/null
-  python3 - "$id" "$v" "$target" "$tests" "$(git -C $wt rev-parse HEAD)" <<'PY'
+  python3 - "$id" "$name" "$target" "$tests" "$(git -C $wt rev-parse HEAD)" <<'PY'
 import json,sys,re
 id,v,target,tests,base=sys.argv[1:6]
-notes=open('/verif/seeded/%s-%s/NOTES.md'%(id,v)).read() if True else ''
+
 meta={"property":id,"variant":v,"base_commit":base,"demo_target":target,"demo_tests":tests.split('|'),
  "needs_to_manifest":"see NOTES.md (written by the independent sub-agent)",
  "confirmed":{"demo_passes_on_unchanged_tree":True,"demo_fails_with_change":True,"existing_suite_passes_with_change":True,
    "commands":["go test -vet=off -count=1 -run '^(%s)$' ./%s   (unchanged: pass; with patch: fail)"%(tests,target.rsplit('/',1)[0]),"go build ./... && go test -vet=off -count=1 ./...   (with patch, demo removed: pass)"]},
  "detected_by":None}
-json.dump(meta,open('/verif/seeded/%s-%s/meta.json'%(id,v),'w'),indent=1)
+json.dump(meta,open('/verif/seeded/%s/meta.json'%v,'w'),indent=1)
 PY
   echo "KEPT $d"
 else
